@@ -19,7 +19,8 @@ RULE = ("fault enumeration: for every scenario (operation {create, replace, dele
         "per mutation k with os._exit(137) immediately before mutation k (user-space buffers are lost exactly as with SIGKILL), plus torn variants in which every file that was "
         "open for writing at that instant (read from /proc/self/fd) is cut to zero and to half of its final content, plus once per mutation k with the process killed at the first "
         "trace event of the calling frame after mutation k returned (before any unhooked write / flush / close that follows it); on every crash state the next operation of "
-        "the client (a shorter write of the same target / the same property; stale *.lock files removed first if they refuse it) must be acknowledged and read back exactly; each crash state is re-opened by a fresh store object: all "
+        "the client (a shorter write of the same target / the same property; stale *.lock files removed first if they refuse it) must be acknowledged and read back exactly, or the interrupted operation itself is repeated and must give the completed state; for vdir (few mutations per "
+        "operation) the next write is itself killed at each of its mutations (crash states copied with cp -a so that hard links survive) and must leave the crash state or its own result; each crash state is re-opened by a fresh store object: all "
         "members must read and parse, the target must be old or new, everything else unchanged, `git fsck --connectivity-only` and `git rev-list --objects --all` must succeed; "
         "thorough adds SIGKILL at random instants of a loop of acknowledged writes; distinct = distinct (op, store, meta, prior, crash index, variant) points")
 
@@ -107,6 +108,10 @@ def do_op(backend, path, op, bodies):
         st.set_description("new description")
     elif op == "set-type":
         st.set_type("addressbook")
+    elif op == "follow:create":
+        st.import_one("target.ics", "text/calendar", [bodies["follow-create"]])
+    elif op in ("follow:replace", "follow:delete"):
+        st.import_one("p0.ics", "text/calendar", [bodies["follow-p0"]])
     else:
         raise ValueError(op)
 
@@ -329,6 +334,8 @@ def run_scenario(sc, res, rng, base, env):
             locks = [f for r_, d_, fs in os.walk(work) for f in fs if f.endswith(".lock")]
             if locks:
                 res.count("crash_states_with_stale_lock_files")
+            if backend == "vdir" and op in ("create", "replace", "delete") and variant in ("as-is", "killed-right-after") and n <= 8:
+                second_crash(backend, work, base, op, bodies, st, res, tag, prior, where, variant, sc, k)
             if (k + len(variant)) % 2 == 0:
                 follow_up(backend, work, op, bodies, st, res, tag, prior, where, variant, sc, k)
             else:
@@ -338,6 +345,59 @@ def run_scenario(sc, res, rng, base, env):
     res.count("scenario_seen_new:" + tag, 1 if seen_new else 0)
     if len(res.samples) < 3:
         res.sample({"scenario": sc, "mutations": [[e[0], os.path.relpath(e[1], os.path.realpath(work)) if os.path.isabs(e[1]) else e[1]] for e in rec["events"]][:40]})
+
+
+def cp_a(src, dst):
+    """copy a directory tree keeping hard links between its files (what a crash state may contain)"""
+    common.rmtree(dst)
+    subprocess.run(["cp", "-a", src, dst], check=True)
+
+
+def second_crash(backend, work, base, op, bodies, st_crash, res, tag, prior, where, variant, sc, k):
+    """a second process death, during the client's next write on the crash state (stores with few mutations per operation
+    only): what the first crash left behind must not make that write unsafe.  The state is the crash state or the result
+    of the completed next write."""
+    fop = "follow:" + op
+    s1 = os.path.join(base, "crash1")
+    w2 = os.path.join(base, "work2")
+    cp_a(work, s1)
+    rec_file = os.path.join(base, "rec2.json")
+    if os.path.exists(rec_file):
+        os.unlink(rec_file)
+    cp_a(s1, w2)
+    code = child_run(backend, w2, fop, bodies, None, rec_file)
+    if code != 0 or not os.path.exists(rec_file):
+        return      # the next write itself fails on this crash state: follow_up() reports that
+    rec = json.load(open(rec_file))
+    n2 = rec["n"]
+    try:
+        done_state, probs = state_of(backend, w2)
+    except Exception:
+        return
+    if probs:
+        return
+    for j in range(1, n2 + 1):
+        for v2 in ("as-is", "killed-right-after"):
+            cp_a(s1, w2)
+            code = child_run(backend, w2, fop, bodies, j, None, after=(v2 == "killed-right-after"))
+            if code != 137:
+                continue
+            res.count("second_crash_points")
+            ev = rec["events"][j - 1] if j - 1 < len(rec["events"]) else ["-", "?"]
+            w2desc = f"{where} [{variant}], restart, next write killed {'right after' if v2 != 'as-is' else 'before'} its mutation {j}/{n2} ({ev[0]} {os.path.basename(str(ev[1]))})"
+            wit = {"scenario": sc, "k": k, "variant": variant, "second": [j, v2]}
+            try:
+                st2, probs2 = state_of(backend, w2)
+            except Exception as e:  # noqa
+                res.violation(f"{tag}/second-crash/store-does-not-open/{type(e).__name__}", f"{tag} prior={prior}: crash {w2desc}: the store cannot be read: {e!r}", wit)
+                continue
+            for pr in probs2:
+                res.violation(f"{tag}/second-crash/unreadable", f"{tag} prior={prior}: crash {w2desc}: {pr}", wit)
+            if st2 != st_crash and st2 != done_state:
+                diff = describe_diff(st_crash, done_state, st2)
+                res.violation(f"{tag}/second-crash/neither-before-nor-after-the-next-write/{diff[0]}", f"{tag} prior={prior}: crash {w2desc}: {diff[1]}", dict(wit, before=st_crash, after=done_state, got=st2))
+    common.rmtree(s1)
+    common.rmtree(w2)
 
 
 def retry_same(backend, work, op, bodies, new_state, res, tag, prior, where, variant, sc, k, cleaned=False):
@@ -623,6 +683,7 @@ def check(tier, seed, t0):
               ("crash points right after a mutation returned", c.get("crash_points:killed-right-after", 0), 500),
               ("acknowledged operations on a crash state read back", c.get("followups_acknowledged", 0), 400),
               ("interrupted operations repeated on the crash state", c.get("retries_acknowledged", 0), 400),
+              ("second process deaths during the next write on a crash state (vdir)", c.get("second_crash_points", 0), 60),
               ("crash states equal to the old state", c.get("state_old", 0), 300), ("crash states equal to the new state", c.get("state_new", 0), 80)]
     for backend in ("tree", "bare", "vdir"):
         for op in ("create", "replace", "delete"):
